@@ -81,6 +81,37 @@ inline ref::K kind_of(Theo::Token::Type t) {
 }
 
 
+// Pre-screen shared by every harness that compiles sources whose macro definitions were mutated or generated
+// blindly: compile() always grants 1024 macro passes, each rescanning the whole stream, so an expansion that keeps
+// growing costs minutes (and with a slot inserted twice grows exponentially - known finding F11). The expansion is
+// probed with budgets 3..48 and the case is skipped (and counted by the caller) if it is still running with a
+// stream that is large or projects to more than 1500 tokens. A time budget, i.e. inconclusive - never a verdict.
+inline bool explosive_expansion(const Files &files, const std::string &main) {
+  bool has_define = false;
+  for (auto &f : files)
+    if (f.second.find("efine") != std::string::npos || f.second.find("EFINE") != std::string::npos || f.second.find("def") != std::string::npos ||
+        f.second.find("Def") != std::string::npos)
+      has_define = true;
+  if (!has_define) return false;
+  Files f2 = files;
+  Theo::ScanResult sr = Theo::scan(f2, main);
+  Theo::MacroExtractionResult mer = Theo::extract_macros(sr.toks);
+  if (mer.macros.empty()) return false;
+  for (unsigned b : {3u, 6u, 12u, 24u, 48u}) {
+    Theo::MacroApplicationResult mar = Theo::apply_macros(mer.tokens, mer.macros, b);
+    bool still = false;
+    for (auto &e : mar.errors)
+      if (e.t == Theo::ParseError::MACRO_APPLY_REACHED_MAX_PASSES) still = true;
+    if (!still) return false;
+    if (mar.transformed_sequence.size() > 1500) return true;
+    if (b == 48u) {
+      double growth = ((double)mar.transformed_sequence.size() - (double)mer.tokens.size()) / 48.0;
+      return (double)mer.tokens.size() + 1024.0 * (growth > 0 ? growth : 0) > 1500;
+    }
+  }
+  return false;
+}
+
 inline ref::Tok to_ref(const Theo::Token &t) {
   ref::Tok r;
   r.k = kind_of(t.t);
